@@ -215,9 +215,11 @@ class Run:
         except Exception as ex:     # noqa
             out["events"] = [{"e": "error", "where": "trace", "type": type(ex).__name__, "msg": str(ex)[:200]}]
             out["jvp"], out["jvp2"], out["val"] = 0, 0, 0
+            out["val2"] = 0
             out["fevents"], out["fwd_intact"] = [], False
             return out
         out["val"] = to_int(onp.asarray(val)[0])
+        out["val2"] = to_int(onp.asarray(val)[1])
         out["stages"] = self.stages
         held = []                  # (result object, snapshot) of earlier calls
         cots = []
@@ -280,7 +282,7 @@ class Run:
                 rr = onp.asarray(grad(lambda z: np.sum(g1(z) * vv))(x))
                 fr = onp.asarray(make_jvp(g1)(x)(vv)[1])
                 rf = onp.asarray(grad(lambda z: make_jvp(F2)(z)(vv)[1])(x))
-                # ... and the first-order gradient as computed WHILE an outer differentiation is tracing it: 2 ps^2 x with x = (1, 2)
+                # ... and the first-order gradient as computed WHILE an outer differentiation is tracing it: 2 ps F(x)  (F = ps x + constants)
                 gt = onp.asarray(make_vjp(g1)(x)[1])
                 out["hvp"] = [to_int(rr[0]), to_int(rr[1]), to_int(fr[0]), to_int(fr[1]), to_int(rf[0]), to_int(rf[1]), to_int(gt[0]), to_int(gt[1])]
             except Exception as ex:     # noqa
